@@ -549,7 +549,8 @@ func (e *env) execute(id int64, sb string, hc *hcase) string {
 					}
 					bd = CSome(CPair(b, d))
 				}
-				opT = append(opT, CApp("OSet", S(o.U), bd))
+				emptyBase := !o.NilB && o.Base != nil && o.Base.Raw != nil && len(o.Base.Raw) == 0
+				opT = append(opT, CApp("OSet", S(o.U), CBool(emptyBase), bd))
 			case "get":
 				opT = append(opT, CApp("OGet", S(o.U), CZ(o.tMs)))
 			case "put":
@@ -686,7 +687,7 @@ func runC15(a *Args) error {
 	add(e.mint("ZD1", "Z", time.Time{}, true, 0))
 	add(&crlObj{Label: "W1", Kind: "W", Raw: []byte("this is not a CRL"), RL: &x509.RevocationList{Raw: []byte("this is not a CRL")}})
 	add(&crlObj{Label: "N1", Kind: "N", Raw: nil, RL: &x509.RevocationList{}})
-	// an empty but non-nil Raw (only ever used as a delta: omitempty drops it like a nil one)
+	// an empty but non-nil Raw: as a base it is stored as "" (a nil one as null), as a delta omitempty drops it like a nil one
 	add(&crlObj{Label: "N2", Kind: "N", Raw: []byte{}, RL: &x509.RevocationList{Raw: []byte{}}})
 	// a valid DER with one trailing byte: refused by the parser
 	add(&crlObj{Label: "W2", Kind: "W", Raw: append(append([]byte{}, e.crls["F1"].Raw...), 0), RL: &x509.RevocationList{Raw: append(append([]byte{}, e.crls["F1"].Raw...), 0)}})
